@@ -14,11 +14,21 @@ RULE = ("functions with deterministic code, log-density sites and sampling sites
         "inside the mapped function; in_axes in {0, 1, -1, None, tuples, pytrees}, axis_size given or inferred, per-lane parameters of differing "
         "rank: modular_vmap(f)(args) vs stacking f(slice_i) and vs jax.vmap's layout; Vmap combinator / repeat: lane i of the vectorised trace "
         "is a coherent callee trace on lane i's arguments, density/weights/retvals are per-lane sums/stacks; sample-site layout vs the Lean "
-        "layout model; non-trivial = every (function, axes) case")
+        "layout model; value level: a structured probe (every entry = position in the one sampler call + the value of every signature slot) "
+        "on the direct-site families, keyword/positional mixes with skipped slots and seeded random sites (in_axes, sample_shape, ranks) is "
+        "compared entry by entry with the Lean model of the batching rule (VmapRule) and lane by lane with the un-mapped site; "
+        "non-trivial = every (function, axes) case")
 
 
-def probe(G):
-    """sampler returning a deterministic function of its parameters (broadcast over sample_shape): reveals pairing/layout"""
+RMAX = 6            # structured probe: positions are padded to this rank with -1
+SLOTS = ("a", "b", "c")
+
+
+def probe(G, structured=False):
+    """sampler returning a deterministic function of its parameters (broadcast over sample_shape): reveals pairing/layout.
+    structured=True: signature (a=None, b=None, c=None); every entry of the returned array (shape sample_shape + broadcast of
+    the parameter shapes) carries a trailing event vector [position in THIS call (padded with -1 to RMAX), a, b, c] with NaN
+    for a slot left at its default - WHICH parameter values the entry was drawn from and WHERE in the one call it sits."""
     import jax.numpy as jnp
     from genjax.pjax import wrap_sampler
 
@@ -26,7 +36,17 @@ def probe(G):
         base = jnp.asarray(a, jnp.float32) + 100.0 * jnp.asarray(b, jnp.float32)
         return jnp.broadcast_to(base, tuple(sample_shape) + jnp.shape(base))
 
-    return wrap_sampler(keyful, name="probe_param")
+    def keyful_structured(key, a=None, b=None, c=None, sample_shape=()):
+        ps = [None if p is None else jnp.asarray(p, jnp.float32) for p in (a, b, c)]
+        batch = jnp.broadcast_shapes(*[jnp.shape(p) for p in ps if p is not None])
+        full = tuple(sample_shape) + tuple(batch)
+        assert len(full) <= RMAX
+        cols = [jnp.broadcast_to(ix, full).astype(jnp.float32) for ix in jnp.indices(full, sparse=True)]
+        cols += [jnp.full(full, -1.0, jnp.float32)] * (RMAX - len(full))
+        cols += [jnp.full(full, jnp.nan, jnp.float32) if p is None else jnp.broadcast_to(p, full) for p in ps]
+        return jnp.stack(cols, axis=-1)
+
+    return wrap_sampler(keyful_structured, name="probe_struct") if structured else wrap_sampler(keyful, name="probe_param")
 
 
 def functions(G):
@@ -120,7 +140,9 @@ def functions(G):
 
     def f_rank(loc, scale):
         return pp(loc, scale)        # per lane: scalar loc, vector scale -> vector output
-    F["differing-rank"] = (f_rank, [((v3, m32), (0, 0), None), ((jnp.array([1.0, 2.0]), m23), (0, 0), None)])
+    m33 = jnp.arange(9.0).reshape(3, 3) + 11.0
+    F["differing-rank"] = (f_rank, [((v3, m32), (0, 0), None), ((jnp.array([1.0, 2.0]), m23), (0, 0), None),
+                                    ((v3, m33), (0, 0), None)])          # lane count = vector length: silent mis-pairing
     return F
 
 
@@ -318,6 +340,406 @@ def layout_model(G, ctx):
         ctx.case(nontrivial_key=("layout", ss, batched))
 
 
+# ----------------------------------------------------------------------------- value level: the Lean model of the batching rule
+# how the direct-site families of functions(G) call their site: f's arguments -> (positional, keywords, sample_shape);
+# `c` marks a Python constant (value for the arguments, None for the axes)
+SITE_FORMS = {
+    "probe-site": lambda c, a, b: ((a, b), {}, ()),
+    "sample_shape-site": lambda c, a: ((a, c(1.0)), {}, (2,)),
+    "pytree-axes": lambda c, d: ((d["a"], d["b"][0]), {}, ()),
+    "differing-rank": lambda c, loc, scale: ((loc, scale), {}, ()),
+}
+
+
+def rule_sites(G, ctx):
+    """sites for the value-level tie: (label, positional arrays, {keyword: array}, positional axes, {keyword: axis}, sample_shape, axis_size)"""
+    import jax.numpy as jnp
+    out = []
+    F = functions(G)
+    for name, form in SITE_FORMS.items():
+        for k, (args, ia, asz) in enumerate(F[name][1]):
+            pos, kws, ss = form(lambda v: v, *args)
+            pax, kax, _ = form(lambda v: None, *ia)
+            out.append((f"{name}#{k}", list(pos), dict(kws), list(pax), dict(kax), tuple(ss), asz))
+    v3 = jnp.array([1.0, 2.0, 3.0])
+    m23 = jnp.arange(6.0).reshape(2, 3) + 1.0
+    m32 = m23.T + 10.0
+    t234 = jnp.arange(24.0).reshape(2, 3, 4) + 1.0
+    # keyword / positional mixes; a skipped slot makes "keywords re-bound positionally" visible
+    out += [
+        ("kw:c-only", [], {"c": v3}, [], {"c": 0}, (), None),
+        ("kw:a,c(skip b)", [v3], {"c": v3 * 2}, [0], {"c": 0}, (), None),
+        ("kw:b-only", [], {"b": v3 + 0.5}, [], {"b": 0}, (2,), None),
+        ("kw:c,a by keyword", [], {"c": m23, "a": m32}, [], {"c": 1, "a": 0}, (), None),
+        ("kw:all three", [], {"b": v3, "a": v3 * 2, "c": 7.0}, [], {"b": 0, "a": 0, "c": None}, (), None),
+        ("kw:in_axes=1 + constant keyword", [m23], {"c": 5.0}, [1], {"c": None}, (2,), None),
+        ("kw:unbatched keywords", [], {"b": 2.0, "c": v3}, [], {"b": None, "c": None}, (2,), 4),
+        ("kw:rank3 axis -1 + keyword axis 1", [t234], {"c": t234 * 2.0}, [-1], {"c": 2}, (), None),
+        ("kw:positional a, keyword b", [m32], {"b": m23}, [0], {"b": -1}, (), None),
+        ("kw:differing rank, keyword", [v3], {"c": jnp.arange(9.0).reshape(3, 3) + 11.0}, [0], {"c": 0}, (), None),
+        ("kw:differing rank raises", [], {"b": v3, "c": m32}, [], {"b": 0, "c": 0}, (), None),
+    ]
+    # seeded random sites
+    rng = ctx.rng
+    for k in range(60 if ctx.thorough else 14):
+        n = rng.choice([2, 3, 4])
+        r = rng.choice([0, 1, 1, 2])
+        base = [rng.choice([1, 2, 3]) for _ in range(r)]
+        nparams = rng.choice([1, 2, 2, 3])
+        slots = sorted(rng.sample(SLOTS, nparams))
+        npos = rng.choice([0, 1, 2, 3])
+        npos = max(0, min(npos, next((j for j, sl in enumerate(SLOTS) if sl not in slots), 3)))      # positionals fill a prefix of the signature
+        differing = rng.random() < 0.25 and r > 0
+        arrs, axes = {}, {}
+        any_mapped = False
+        for j, sl in enumerate(slots):
+            mapped = rng.random() < 0.7
+            lane = [d if rng.random() < 0.75 else 1 for d in base]
+            if mapped and differing and rng.random() < 0.6:
+                lane = lane[rng.randrange(1, r + 1):]                  # a mapped parameter of LOWER per-lane rank: the open finding's region
+            if not mapped:
+                lane = lane[rng.randrange(0, r + 1):]                  # un-mapped: any lower rank
+            if mapped:
+                ax = rng.randrange(0, len(lane) + 1)
+                shape = lane[:ax] + [n] + lane[ax:]
+                any_mapped = True
+                axes[sl] = ax if rng.random() < 0.7 else ax - len(shape)   # negative axis spelling too
+            else:
+                shape, axes[sl] = lane, None
+            size = 1
+            for d in shape:
+                size *= d
+            if not mapped and not shape and rng.random() < 0.5:
+                arrs[sl] = float(100 * (j + 1) + k)                    # a Python constant
+            else:
+                arrs[sl] = (jnp.arange(float(size)).reshape(shape) + 100.0 * (j + 1) + 0.5)
+        ss = rng.choice([(), (), (2,), (2, 3)]) if r < 2 else rng.choice([(), (2,)])
+        asz = n if (not any_mapped or rng.random() < 0.3) else None
+        pos_slots = [sl for sl in slots if SLOTS.index(sl) < npos]
+        kw_slots = [sl for sl in slots if sl not in pos_slots]
+        if [SLOTS.index(sl) for sl in pos_slots] != list(range(len(pos_slots))):
+            pos_slots, kw_slots = [], slots
+        out.append((f"random#{k}", [arrs[sl] for sl in pos_slots], {sl: arrs[sl] for sl in kw_slots},
+                    [axes[sl] for sl in pos_slots], {sl: axes[sl] for sl in kw_slots}, tuple(ss), asz))
+    return out
+
+
+def _decode(out):
+    """structured probe output -> (shape, [(position, [slot values | None])] row-major)"""
+    out = np.asarray(out)
+    flat = out.reshape(-1, out.shape[-1])
+    ents = []
+    for v in flat:
+        ents.append(([int(x) for x in v[:RMAX] if x >= 0], [None if np.isnan(x) else float(x) for x in v[RMAX:]]))
+    return tuple(out.shape[:-1]), ents
+
+
+def _impl_error_kind(ex):
+    msg = str(ex).lower()
+    if "transpose permutation" in msg:
+        return "rank"            # a transpose staged for the abstract per-lane rank meets an array of another rank
+    if "broadcast" in msg or "incompatible shapes" in msg:
+        return "broadcast"
+    if isinstance(ex, TypeError):
+        return "bind"
+    return "other:" + type(ex).__name__
+
+
+def rule_model(G, ctx):
+    """the Lean value-level model of the sample batching rule (Model/VmapRule.lean, theorems C08_rule_*) vs the real rule,
+    entry by entry: which parameter values and which position of the ONE sampler call every entry of the result carries"""
+    import jax
+    import jax.numpy as jnp
+    import jax.random as jr
+    import os
+    pps = probe(G, structured=True)
+    sites = rule_sites(G, ctx)
+    # the model variant the code is expected to match: the current code = all three repairs present.  (Scratch experiments only:
+    # VERIF_C08_RULE_CFG=TFT / FTF / FFF compare a tree with fix b0e536c / 72f5066 / both reverted against the pre-fix model variants.)
+    cfg = list(os.environ.get("VERIF_C08_RULE_CFG", "TTT"))
+    lines, metas = [], []
+    for label, pos, kws, pax, kax, ss, asz in sites:
+        names = sorted(kws)                                         # dict keys flatten sorted
+        xs = [jnp.asarray(x, jnp.float32) for x in pos] + [jnp.asarray(kws[k], jnp.float32) for k in names]
+        axs = list(pax) + [kax[k] for k in names]
+        axs = [None if ax is None else ax % x.ndim for ax, x in zip(axs, xs)]
+        mapped = [x.shape[ax] for x, ax in zip(xs, axs) if ax is not None]
+        n = asz if asz is not None else mapped[0]
+
+        def arg(x, ax):
+            return [list(x.shape), "N" if ax is None else ax, [repr(float(v)) for v in np.asarray(x).reshape(-1)]]
+        site = [list(SLOTS), list(ss), n, [arg(x, ax) for x, ax in zip(xs[:len(pos)], axs)],
+                [[k, arg(x, ax)] for k, x, ax in zip(names, xs[len(pos):], axs[len(pos):])]]
+        lines.append(sexp.dumps(["vmap-rule", cfg] + site))
+        lanes = sorted({0, n - 1})
+        for i in lanes:
+            lines.append(sexp.dumps(["vmap-lane", cfg] + site + [i]))
+        metas.append((label, xs, axs, names, len(pos), ss, asz, n, lanes))
+    outs = iter(common.driver_run(lines))
+    for label, xs, axs, names, npos, ss, asz, n, lanes in metas:
+        model = sexp.loads(next(outs))
+        model_lanes = {i: sexp.loads(next(outs)) for i in lanes}
+        case = {"kind": "rule-model", "site": label, "arg_shapes": [list(x.shape) for x in xs], "in_axes": axs, "positional": npos,
+                "keywords": names, "sample_shape": list(ss), "axis_size": asz}
+        if model[0] == "bad-op":
+            raise common.Infra("driver does not know vmap-rule")
+
+        def g(*ys, _npos=npos, _names=names, _ss=ss):
+            return pps(*ys[:_npos], **dict(zip(_names, ys[_npos:])), sample_shape=_ss)
+        flags = {f[0]: f[1] == "T" for f in model if isinstance(f, list) and len(f) == 2 and f[0] in ("aligned", "valid")}
+        in_region = flags.get("aligned", False) and flags.get("valid", False)
+        case["model_in_theorem_region"] = in_region
+        if not flags.get("valid", False):
+            ctx.correspondence_break("VmapRule vs sample batching rule", f"{label}: the model rejects the arguments jax.vmap accepts (valid=F)", case)
+            continue
+        # ---- the implementation
+        try:
+            got = G.seed(G.modular_vmap(g, in_axes=tuple(axs), axis_size=asz))(jr.key(1), *xs)
+            impl_res = ("ok",) + _decode(got)
+        except Exception as ex:
+            impl.reset_handlers()
+            impl_res = ("error", _impl_error_kind(ex), f"{type(ex).__name__}: {str(ex)[:120]}")
+        # ---- per-lane reference on the implementation: the un-mapped site on lane i's slices
+        refs = {}
+        try:
+            jg = jax.jit(G.seed(g))
+            for i in range(n):
+                sl = [x if ax is None else jnp.take(x, i, axis=ax) for x, ax in zip(xs, axs)]
+                refs[i] = _decode(jg(jr.key(0), *sl))
+        except Exception as ex:
+            impl.reset_handlers()
+            refs = None
+            case["lane_reference_error"] = f"{type(ex).__name__}: {str(ex)[:120]}"
+        # ---- correspondence 1: model of the un-mapped site (bind + broadcast + entry contract) vs the un-mapped site
+        for i, ml in model_lanes.items():
+            if ml[0] == "ok":
+                want = (tuple(int(t) for t in ml[1]), [([int(t) for t in e[0]], [None if v == "N" else float(v) for v in e[1]]) for e in ml[2]])
+                if refs is None or refs[i] != want:
+                    ctx.correspondence_break("VmapRule.draw vs un-mapped site", f"{label}: lane {i}: model {str(want)[:160]} impl {str(refs and refs[i])[:160]}", case)
+            elif refs is not None:
+                ctx.correspondence_break("VmapRule.draw vs un-mapped site", f"{label}: lane {i}: model says the un-mapped call raises ({ml[1]}), the implementation returns", case)
+        if refs is None and all(ml[0] != "ok" for ml in model_lanes.values()):
+            # the site is not defined on its own lanes (model and implementation agree on that): the property says nothing, and the
+            # one-level model does not cover the abstract evaluation (staging) that raises first in the implementation
+            ctx.count("rule-model:site-undefined-on-lanes")
+            ctx.case(nontrivial_key=("rule", label, "undefined"))
+            continue
+        # ---- correspondence 2: model of the rule vs the rule, entry by entry
+        agrees = False
+        if model[0] == "ok":
+            mshape = tuple(int(t) for t in model[3])
+            ments = [([int(t) for t in e[0]], [None if v == "N" else float(v) for v in e[1]]) for e in model[4]]
+            if impl_res[0] != "ok":
+                ctx.correspondence_break("VmapRule vs sample batching rule", f"{label}: model returns shape {mshape}, implementation raised {impl_res[2]}", case)
+            elif impl_res[1] != mshape:
+                ctx.correspondence_break("VmapRule vs sample batching rule", f"{label}: result shape model {mshape} impl {impl_res[1]}", case)
+            elif impl_res[2] != ments:
+                bad = [j for j, (x, y) in enumerate(zip(impl_res[2], ments)) if x != y]
+                j = bad[0]
+                ctx.correspondence_break("VmapRule vs sample batching rule",
+                                         f"{label}: {len(bad)} of {len(ments)} entries differ; first at flat index {j}: model (position, slots) {ments[j]} impl {impl_res[2][j]}", case)
+            else:
+                agrees = True
+        else:
+            if impl_res[0] == "ok":
+                ctx.correspondence_break("VmapRule vs sample batching rule", f"{label}: model predicts a {model[1]} error, implementation returned shape {impl_res[1]}", case)
+            elif impl_res[1] != model[1]:
+                ctx.correspondence_break("VmapRule vs sample batching rule", f"{label}: model predicts a {model[1]} error, implementation raised {impl_res[2]}", case)
+            else:
+                agrees = True
+        # ---- property monitor (independent of the model): lane i carries lane i's parameter values, lane axis first
+        if refs is not None:
+            cls = None if in_region else "vmap-differing-rank"
+            if impl_res[0] != "ok":
+                ctx.property_failure(cls, f"modular_vmap over site {label} raised {impl_res[2]} although the site is defined on every lane", case, matches_asis=agrees and cls is not None)
+            else:
+                want_shape = (n,) + refs[0][0]
+                per = max(1, len(refs[0][1]))
+                bad = sorted({j // per for j in range(len(impl_res[2])) if impl_res[1] == want_shape and impl_res[2][j][1] != refs[j // per][1][j % per][1]})
+                if impl_res[1] != want_shape:
+                    ctx.property_failure(cls, f"site {label}: result shape {impl_res[1]}, stacking the lanes gives {want_shape}", case, matches_asis=agrees and cls is not None)
+                elif bad:
+                    case["lanes_differing"] = bad
+                    ctx.property_failure(cls, f"site {label}: lanes {bad} are drawn from other parameter values than the lane's own slices", case, matches_asis=agrees and cls is not None)
+        ctx.case(sample=case if label.startswith("random#") and ctx.coverage["evaluations"] % 5 == 0 else None,
+                 nontrivial_key=("rule", label, str(case["arg_shapes"]), str(axs), str(ss)))
+        ctx.count("rule-model:" + ("in-region" if in_region else "differing-rank"))
+
+
+def nest_sites(G, ctx):
+    """sites under a NEST of modular_vmaps: (label, positional arrays, {keyword: array}, per level (innermost first) the positional axes and
+    {keyword: axis} - the axis of a level is relative to the array with all outer levels sliced away -, sample_shape, per level axis_size)"""
+    import jax.numpy as jnp
+    v3 = jnp.array([1.0, 2.0, 3.0])
+    w2 = jnp.array([1.0, 2.0])
+    m32 = (jnp.arange(6.0).reshape(2, 3) + 1.0).T
+    out = [
+        # the families `nested-repeat` and `nested-batched` of functions(G), as sites
+        ("nested-repeat#0", [v3, 3.0], {}, [([None, None], {}), ([0, None], {})], (), [2, None]),
+        ("nested-repeat#1", [2.0, 3.0], {}, [([None, None], {}), ([None, None], {})], (), [2, 3]),
+        ("nested-batched#0", [v3, w2], {}, [([None, 0], {}), ([0, None], {})], (), [None, None]),
+        ("nested-batched#1", [m32, w2], {}, [([None, 0], {}), ([0, None], {})], (), [None, None]),
+        # one array mapped at both levels, a keyword mapped at the outer one only, own sample_shape
+        ("nest:both levels + keyword", [jnp.arange(12.0).reshape(2, 3, 2) + 1.0], {"c": jnp.arange(12.0).reshape(3, 2, 2) + 50.0}, [([1], {"c": 0}), ([1], {"c": 0})], (2,), [None, None]),
+        ("nest:outer-only keyword next to an inner-mapped array", [jnp.arange(12.0).reshape(2, 3, 2) + 1.0], {"c": m32 + 50.0}, [([1], {"c": None}), ([1], {"c": 0})], (2,), [None, None]),
+        ("nest:repeat in repeat", [], {"b": 4.0}, [([], {"b": None}), ([], {"b": None})], (2,), [2, 3]),
+    ]
+    rng = ctx.rng
+    for k in range(24 if ctx.thorough else 8):
+        L = rng.choice([2, 2, 3])
+        sizes = [rng.choice([2, 3]) for _ in range(L)]
+        r = rng.choice([0, 0, 1])
+        base = [rng.choice([2, 3]) for _ in range(r)]
+        nparams = rng.choice([1, 2, 2])
+        slots = sorted(rng.sample(SLOTS, nparams))
+        same = rng.random() < 0.6                       # all parameters mapped at the same levels: inside the lane-wise region
+        common_levels = [rng.random() < 0.6 for _ in range(L)]
+        arrs, axes = {}, {sl: [] for sl in slots}
+        mapped_any = [False] * L
+        for j, sl in enumerate(slots):
+            shape = list(base)
+            for lv in range(L):                          # innermost first: each mapped level inserts its axis into the array built so far
+                mapped = common_levels[lv] if same else rng.random() < 0.5
+                if mapped:
+                    ax = rng.randrange(0, len(shape) + 1)
+                    shape = shape[:ax] + [sizes[lv]] + shape[ax:]
+                    axes[sl].append(ax)
+                    mapped_any[lv] = True
+                else:
+                    axes[sl].append(None)
+            size = 1
+            for d in shape:
+                size *= d
+            arrs[sl] = jnp.arange(float(size)).reshape(shape) + 100.0 * (j + 1) + 0.5
+        npos = 0
+        while npos < len(slots) and slots[npos] == SLOTS[npos] and rng.random() < 0.6:
+            npos += 1
+        pos_slots, kw_slots = slots[:npos], slots[npos:]
+        ss = rng.choice([(), (), (2,)])
+        out.append((f"nest-random#{k}", [arrs[sl] for sl in pos_slots], {sl: arrs[sl] for sl in kw_slots},
+                    [([axes[sl][lv] for sl in pos_slots], {sl: axes[sl][lv] for sl in kw_slots}) for lv in range(L)], tuple(ss),
+                    [None if mapped_any[lv] and rng.random() < 0.7 else sizes[lv] for lv in range(L)]))
+    return out
+
+
+def nest_model(G, ctx):
+    """nested modular_vmap around one site: the Lean model of the rule applied innermost level first (Model/VmapRuleNest.lean) vs the
+    implementation, entry by entry; monitor: every (outer lane, inner lane) carries its own fully sliced parameter values"""
+    import os
+    import jax
+    import jax.numpy as jnp
+    import jax.random as jr
+    pps = probe(G, structured=True)
+    cfg = list(os.environ.get("VERIF_C08_RULE_CFG", "TTT"))
+    lines, metas = [], []
+    for label, pos, kws, levels, ss, aszs in nest_sites(G, ctx):
+        names = sorted(kws)
+        xs = [jnp.asarray(x, jnp.float32) for x in pos] + [jnp.asarray(kws[k], jnp.float32) for k in names]
+        L = len(levels)
+        axs = [list(pax) + [kax[k] for k in names] for pax, kax in levels]       # axs[level][arg], innermost level first
+        sizes = []
+        for lv in range(L):
+            n = aszs[lv]
+            for j, x in enumerate(xs):
+                if n is None and axs[lv][j] is not None:
+                    shp = list(x.shape)
+                    for o in range(L - 1, lv, -1):                             # slice the outer levels away
+                        if axs[o][j] is not None:
+                            del shp[axs[o][j]]
+                    n = shp[axs[lv][j]]
+            sizes.append(n)
+
+        def narg(j, x):
+            return [list(x.shape), ["N" if axs[lv][j] is None else axs[lv][j] for lv in range(L)], [repr(float(v)) for v in np.asarray(x).reshape(-1)]]
+        lines.append(sexp.dumps(["vmap-nest", cfg, list(SLOTS), list(ss), sizes, [narg(j, x) for j, x in enumerate(xs[:len(pos)])],
+                                 [[k, narg(len(pos) + j, x)] for j, (k, x) in enumerate(zip(names, xs[len(pos):]))]]))
+        metas.append((label, xs, axs, names, len(pos), ss, aszs, sizes))
+    outs = common.driver_run(lines)
+    for (label, xs, axs, names, npos, ss, aszs, sizes), line in zip(metas, outs):
+        model = sexp.loads(line)
+        L = len(sizes)
+        case = {"kind": "rule-model-nest", "site": label, "arg_shapes": [list(x.shape) for x in xs], "in_axes_innermost_first": axs, "positional": npos,
+                "keywords": names, "sample_shape": list(ss), "axis_sizes_innermost_first": aszs}
+        if model[0] == "bad-op":
+            raise common.Infra("driver does not know vmap-nest")
+
+        def g(*ys, _npos=npos, _names=names, _ss=ss):
+            return pps(*ys[:_npos], **dict(zip(_names, ys[_npos:])), sample_shape=_ss)
+        fn = g
+        for lv in range(L):
+            fn = (lambda inner, lv: lambda *ys: G.modular_vmap(inner, in_axes=tuple(axs[lv]), axis_size=aszs[lv])(*ys))(fn, lv)
+        try:
+            impl_res = ("ok",) + _decode(G.seed(fn)(jr.key(1), *xs))
+        except Exception as ex:
+            impl.reset_handlers()
+            impl_res = ("error", _impl_error_kind(ex), f"{type(ex).__name__}: {str(ex)[:120]}")
+        # per-lane reference: the un-mapped site on the fully sliced arguments, outermost lane index first
+        refs = {}
+        try:
+            jg = jax.jit(G.seed(g))
+            for lanes in itertools.product(*[range(n) for n in reversed(sizes)]):
+                sl = []
+                for j, x in enumerate(xs):
+                    for o, i in zip(range(L - 1, -1, -1), lanes):
+                        if axs[o][j] is not None:
+                            x = jnp.take(x, i, axis=axs[o][j])
+                    sl.append(x)
+                refs[lanes] = _decode(jg(jr.key(0), *sl))
+        except Exception as ex:
+            impl.reset_handlers()
+            refs = None
+            case["lane_reference_error"] = f"{type(ex).__name__}: {str(ex)[:120]}"
+        agrees = False
+        if model[0] == "ok":
+            mshape = tuple(int(t) for t in model[1])
+            ments = [([int(t) for t in e[0]], [None if v == "N" else float(v) for v in e[1]]) for e in model[2]]
+            if impl_res[0] != "ok":
+                ctx.correspondence_break("VmapRuleNest vs nested sample batching rule", f"{label}: model returns shape {mshape}, implementation raised {impl_res[2]}", case)
+            elif impl_res[1] != mshape:
+                ctx.correspondence_break("VmapRuleNest vs nested sample batching rule", f"{label}: result shape model {mshape} impl {impl_res[1]}", case)
+            elif impl_res[2] != ments:
+                bad = [j for j, (x, y) in enumerate(zip(impl_res[2], ments)) if x != y]
+                ctx.correspondence_break("VmapRuleNest vs nested sample batching rule",
+                                         f"{label}: {len(bad)} of {len(ments)} entries differ; first at flat index {bad[0]}: model {ments[bad[0]]} impl {impl_res[2][bad[0]]}", case)
+            else:
+                agrees = True
+        elif impl_res[0] == "ok":
+            ctx.correspondence_break("VmapRuleNest vs nested sample batching rule", f"{label}: model predicts a {model[1]} error, implementation returned shape {impl_res[1]}", case)
+        elif impl_res[1] != model[1]:
+            ctx.correspondence_break("VmapRuleNest vs nested sample batching rule", f"{label}: model predicts a {model[1]} error, implementation raised {impl_res[2]}", case)
+        else:
+            agrees = True
+        # the lane-wise region for a nest: at every level the arguments mapped at that level have the maximal rank AS THAT LEVEL SEES THEM
+        # (per-lane rank + one axis per inner level at which the argument is mapped)
+        if refs is not None:
+            lane_rank = []
+            for j, x in enumerate(xs):
+                lane_rank.append(x.ndim - sum(1 for lv in range(L) if axs[lv][j] is not None))
+            in_region = True
+            for lv in range(L):
+                seen = [lane_rank[j] + sum(1 for q in range(lv) if axs[q][j] is not None) for j in range(len(xs))]
+                if any(axs[lv][j] is not None and seen[j] != max(seen) for j in range(len(xs))):
+                    in_region = False
+            case["in_lanewise_region"] = in_region
+            cls = None if in_region else "vmap-differing-rank"
+            ref0 = refs[tuple(0 for _ in sizes)]
+            want_shape = tuple(reversed(sizes)) + ref0[0]
+            if impl_res[0] != "ok":
+                ctx.property_failure(cls, f"nested modular_vmap over site {label} raised {impl_res[2]} although the site is defined on every lane", case, matches_asis=agrees and cls is not None)
+            elif impl_res[1] != want_shape:
+                ctx.property_failure(cls, f"nested site {label}: result shape {impl_res[1]}, stacking the lanes gives {want_shape}", case, matches_asis=agrees and cls is not None)
+            else:
+                per = max(1, len(ref0[1]))
+                order = list(itertools.product(*[range(n) for n in reversed(sizes)]))
+                bad = sorted({order[j // per] for j in range(len(impl_res[2])) if impl_res[2][j][1] != refs[order[j // per]][1][j % per][1]})
+                if bad:
+                    case["lanes_differing"] = [list(b) for b in bad]
+                    ctx.property_failure(cls, f"nested site {label}: lanes {bad[:4]} are drawn from other parameter values than the lane's own slices", case, matches_asis=agrees and cls is not None)
+            ctx.count("rule-model-nest:" + ("in-region" if in_region else "differing-rank"))
+        ctx.case(sample=case if label.startswith("nest-random#") and ctx.coverage["evaluations"] % 4 == 0 else None,
+                 nontrivial_key=("rule-nest", label, str(case["arg_shapes"]), str(axs), str(ss)))
+
+
 def run(ctx, audit):
     G = impl.load()
     F = functions(G)
@@ -327,6 +749,8 @@ def run(ctx, audit):
     independence(G, ctx)
     combinator(G, ctx)
     layout_model(G, ctx)
+    rule_model(G, ctx)
+    nest_model(G, ctx)
     return {"rule": RULE}
 
 
